@@ -171,7 +171,52 @@ def check_positions(snap, b, originals):
     return None
 
 
+def twin_order_cases(rng, n):
+    """two distinct but equal nodes inside ONE tree (ids `h` and `h_1`), in either order of appearance, alone or below
+    other nodes, round-tripped after the originals left the registry: every position gets back its own id, the two stay
+    two objects, and both are registered"""
+    for _ in range(n):
+        gc.collect()
+        v = rng.randrange(10 ** 6)
+        first = zoo.Leaf(v=v)            # id h
+        second = zoo.Leaf(v=v)           # id h_1
+        third = zoo.Leaf(v=v) if rng.random() < 0.4 else None     # id h_2
+        order = [second, first] if rng.random() < 0.6 else [first, second]
+        if third is not None:
+            order.insert(rng.randrange(3), third)
+        wrap = rng.choice(["tup", "un", "bin"])
+        kids = tuple(zoo.Un(x) if wrap == "un" else x for x in order)
+        root = zoo.Bin(kids[0], kids[1]) if wrap == "bin" and len(kids) == 2 else zoo.Tup(kids)
+        ids = [x.id for x in order]
+        fmt = rng.choice(FORMATS)
+        fail = None
+        try:
+            payload = serialize(root, fmt, None)
+            cls = type(root)
+            root.detach()
+            del root, kids
+            back = deserialize(cls, fmt, payload)
+            leaves = [i.node for i in back.dfs() if type(i.node) is zoo.Leaf]
+            got = [x.id for x in leaves]
+            if got != ids:
+                fail = f"ids of the equal leaves in order of appearance: {got}, serialized: {ids}"
+            elif len({id(x) for x in leaves}) != len(leaves):
+                fail = "two distinct equal nodes came back as one object"
+            elif any(NODE_REGISTRY.get(x.id) is not x for x in leaves):
+                fail = "a deserialized node is not registered under its id"
+            elif len([k for k, o in NODE_REGISTRY.items() if any(o is x for x in leaves)]) != len(leaves):
+                fail = "a deserialized node is registered under more than one id"
+            back.detach()
+            del back, leaves
+        except Exception as e:  # noqa
+            fail = f"round trip raised {type(e).__name__}: {e}"[:200]
+        del first, second, third, order
+        yield Case("roundtrip:twin-order", None, None, True, f"equal leaves with ids {ids} inside one {wrap} tree, format={fmt}, originals detached",
+                   oracle_fail=fail, sig="roundtrip|twin-order")
+
+
 def cases(rng: random.Random, tier: str):
+    yield from twin_order_cases(rng, 12 if tier == "quick" else 200)
     n = 60 if tier == "quick" else 1500
     fresh_items, fresh_desc = [], []
     for _ in range(n):
